@@ -16,6 +16,25 @@ Proof. exact str_scalar_roundtrip. Qed.
 Theorem C01_uri_partial : forall f g pre3 ver3 s t rest,
   zdump (S f) pre3 (VUri s) = Ok t -> p_scalar (S g) ver3 (t ++ rest) = Some (Ok (VUri s), rest).
 Proof. exact uri_scalar_roundtrip. Qed.
+(* the letter scalars - null, marker, Remove, booleans, and NA under 3.0 - written by the dumper come back through
+   the whole alternation whenever a delimiter (end of text, comma, line end, blank, ] } >) follows; for NA the
+   longest match wins over N *)
+Theorem C01_letter_scalars_partial : forall f g pre3 ver3 v t rest,
+  In v [VNull; VMarker; VRemove; VBool true; VBool false] -> delim rest ->
+  zdump (S f) pre3 v = Ok t -> p_scalar (S g) ver3 (t ++ rest) = Some (Ok v, rest).
+Proof.
+  intros f g pre3 ver3 v t rest Hin Hd. cbn [In] in Hin.
+  destruct Hin as [E|[E|[E|[E|[E|[]]]]]]; subst v; cbn [zdump]; intro Q; inversion Q; subst t; cbn [List.app].
+  - apply scalar_null; exact Hd.
+  - apply scalar_marker; exact Hd.
+  - apply scalar_remove; exact Hd.
+  - apply scalar_true; exact Hd.
+  - apply scalar_false; exact Hd.
+Qed.
+Theorem C01_na_partial : forall f g t rest, delim rest ->
+  zdump (S f) false VNA = Ok t -> p_scalar (S g) true (t ++ rest) = Some (Ok VNA, rest).
+Proof. intros f g t rest Hd. cbn [zdump]. intro Q; inversion Q; subst t. cbn [List.app]. apply scalar_na. exact Hd. Qed.
+
 (* the writer never fails on text *)
 Theorem C01_text_always_dumps : forall f pre3 s, (exists t, zdump (S f) pre3 (VStr s) = Ok t) /\ (exists t, zdump (S f) pre3 (VUri s) = Ok t).
 Proof.
@@ -38,6 +57,8 @@ Example C01_grid_example :
   end.
 Proof. vm_compute. reflexivity. Qed.
 
+Print Assumptions C01_letter_scalars_partial.
+Print Assumptions C01_na_partial.
 Print Assumptions C01_str_partial.
 Print Assumptions C01_uri_partial.
 Print Assumptions C01_text_always_dumps.
